@@ -29,6 +29,10 @@ type Spec struct {
 	LoopBound    int
 	TimeoutMs    int
 	SkipValidate bool
+	// TimedNative: the harnesses use real timers when run natively; a native
+	// validation run that differs (scheduling jitter) is retried and, if it still
+	// differs, reported as a note, not as a failure of the check.
+	TimedNative bool
 	AllowBlocked bool
 	ValidateN    int
 }
